@@ -733,6 +733,29 @@ pub async fn run_net_scenario(sc: &Value, workdir: &str) -> Vec<Value> {
                     }
                 }
             }
+            "close_abandoned" => {
+                // the application calls close() and gives up on it after the first poll (a timeout, a select! branch): the
+                // socket is gone with the future, which is a drop - listeners, files, peers and tasks must go shortly afterwards
+                if let Some(s) = sock.take() {
+                    let fut = async move {
+                        match s {
+                            AnySock::Req(x) => x.close().await.len(),
+                            AnySock::Rep(x) => x.close().await.len(),
+                            AnySock::Dealer(x) => x.close().await.len(),
+                            AnySock::Router(x) => x.close().await.len(),
+                            AnySock::Push(x) => x.close().await.len(),
+                            AnySock::Pull(x) => x.close().await.len(),
+                            AnySock::Pub(x) => x.close().await.len(),
+                            AnySock::Sub(x) => x.close().await.len(),
+                            AnySock::XPub(x) => x.close().await.len(),
+                        }
+                    };
+                    let mut fut = Box::pin(fut);
+                    let polled = futures::poll!(fut.as_mut());
+                    drop(fut);
+                    out.push(json!({"ev":"drop","abandoned_close":true,"finished_at_first_poll":polled.is_ready()}));
+                }
+            }
             "drop" => {
                 sock = None;
                 out.push(json!({"ev":"drop"}));
